@@ -487,18 +487,19 @@ func enumSites(repo string) {
 			}
 			ast.Inspect(fd.Body, func(n ast.Node) bool {
 				switch x := n.(type) {
-				case *ast.CallExpr:
-					if se, ok := x.Fun.(*ast.SelectorExpr); ok {
-						if id, ok := se.X.(*ast.Ident); ok {
-							full := id.Name + "." + se.Sel.Name
-							switch full {
-							case "dict.Keys", "dict.Values", "dict.KVs":
-								sites = append(sites, site{rel, fd.Name.Name, full})
-							case "os.Environ", "os.Getenv", "os.Getpid", "time.Now":
-								sites = append(sites, site{rel, fd.Name.Name, full})
-							}
+				case *ast.SelectorExpr:
+					// every MENTION counts, called or passed as a function value (emitted pipes pass
+					// library functions uncalled: frt.Pipe(xs, dict.Values))
+					if id, ok := x.X.(*ast.Ident); ok {
+						full := id.Name + "." + x.Sel.Name
+						switch full {
+						case "dict.Keys", "dict.Values", "dict.KVs":
+							sites = append(sites, site{rel, fd.Name.Name, full})
+						case "os.Environ", "os.Getenv", "os.Getpid", "time.Now":
+							sites = append(sites, site{rel, fd.Name.Name, full})
 						}
 					}
+				case *ast.CallExpr:
 					for _, a := range x.Args {
 						if bl, ok := a.(*ast.BasicLit); ok && strings.Contains(bl.Value, "%p") {
 							sites = append(sites, site{rel, fd.Name.Name, "format %p"})
